@@ -3,7 +3,7 @@
    of ToSlice) is the finite map of stored prefixes, sorted by (address, length). *)
 From Coq Require Import List NArith Arith Bool.
 From Verif.Common Require Import Prefix.
-From Verif.C36 Require Import Model Spec Proofs Queries General History.
+From Verif.C36 Require Import Model Spec Proofs Queries General History IpLpm.
 Import ListNotations.
 
 (* Update keeps the invariant and is insertion into the map of stored prefixes. *)
@@ -73,20 +73,12 @@ Proof.
 Qed.
 Print Assumptions c36_overlap.
 
-(* The specification oracle accepts every run of the model from the empty trie, for traces of
-   Update/Delete/Get/Covers/Intersects/LookupPath/ToSlice and host-address LPM.
-   Kept for reference; superseded by c36_model_meets_spec below, which covers all operations. *)
-Theorem c36_model_meets_spec_partial : forall w ops,
-  forallb (op_wf w) ops = true -> forallb (op_proved w) ops = true ->
-  ok_trace w ops (run w Leaf ops) = true.
-Proof. intros w ops H1 H2. exact (model_meets_spec_partial w ops Leaf I H1 H2). Qed.
-Print Assumptions c36_model_meets_spec_partial.
-
+(* a non-trivial run accepted by the oracle (hypotheses of c36_model_meets_spec below) *)
 Example c36_model_meets_spec_nontrivial :
   let ops := [OpUpdate (mkP 167772160 28) 1; OpUpdate (mkP 167772168 30) 2; OpUpdate (mkP 167772162 31) 3;
               OpDelete (mkP 167772160 28); OpLPM (mkP 167772169 32); OpCovers (mkP 167772163 32);
               OpIntersects (mkP 167772160 24); OpPath (mkP 167772162 31); OpSlice]%N in
-  forallb (op_wf 32) ops = true /\ forallb (op_proved 32) ops = true /\
+  forallb (op_wf 32) ops = true /\
   run 32 Leaf ops = [ONone; ONone; ONone; ONone; OMatch (Some (mkP 167772168 30, 2%N)); OBool true;
                      OBool true; OEntries [(mkP 167772162 31, 3%N)];
                      OEntries [(mkP 167772162 31, 3%N); (mkP 167772168 30, 2%N)]].
@@ -139,3 +131,25 @@ Theorem c36_model_meets_spec : forall w ops,
   forallb (op_wf w) ops = true -> ok_trace w ops (run w Leaf ops) = true.
 Proof. intros w ops H. exact (model_meets_spec w ops Leaf I H). Qed.
 Print Assumptions c36_model_meets_spec.
+
+(* ---- felix/calc/iplpm.go (IpTrie over the third-party patricia trie, modelled as a finite map) ---- *)
+
+(* after InsertKey(c, k), GetKeys(c) contains k *)
+Theorem c36_ipt_insert_get : forall s c k, exists ks,
+  ipt_get (insert_key s c k) c = Some ks /\ existsb (key_eqb k) ks = true.
+Proof. exact insert_key_get. Qed.
+Print Assumptions c36_ipt_insert_get.
+
+(* REFUTED for the code as pinned: DeleteKey(c, k) does not leave other keys alone -- when c holds
+   exactly one key k' <> k, k' is removed.  Replayed on the real IpTrie by the correspondence run
+   (known finding iplpm-deletekey-nonmember-single; fix in fixes/C36-iplpm-deletekey-nonmember.patch). *)
+Theorem c36_ipt_delete_other_refuted : exists s c k k',
+  key_eqb k' k = false /\ ipt_get s c = Some [k'] /\ ipt_get (delete_key s c k) c = None.
+Proof. exact delete_key_other_refuted. Qed.
+Print Assumptions c36_ipt_delete_other_refuted.
+
+(* the patched DeleteKey leaves a different single key alone *)
+Theorem c36_ipt_delete_fixed_other : forall s c k k',
+  ipt_get s c = Some [k'] -> key_eqb k' k = false -> delete_key_fixed s c k = s.
+Proof. exact delete_key_fixed_other. Qed.
+Print Assumptions c36_ipt_delete_fixed_other.
